@@ -123,6 +123,17 @@ PROPS = {
                 "(inclusion probability 30/55/80/95 %, 0-3 list entries, values from small sets so that unique collisions occur, empty-string values); compared: the multiset of ValidateSchema errors "
                 "(mandatory / choice / cardinality / unique with path), the canonical walk of AddDefaults(schema, data), and whether decorating twice equals decorating once",
     },
+    "C20": {
+        "streams": {"yfilter": {"quick": 2000, "thorough": 100000}},
+        "trusted": ["the canonical dump of a compiled ModelSet (harness): kind, name, namespace, module, config, status, presence/mandatory, default, keys, min/max, ordered-by, unique, type name, when/must texts, children with choices and cases in place",
+                    "pruning of the unfiltered dump is done by the harness on that dump (the direct statement of the property on the real code); the Lean model states the same on its own tree"],
+        "modelled": ["the opd vocabulary (opd:command / option / argument) is outside the model: IsOpd is constantly false on the node kinds generated",
+                     "when the unfiltered compile fails the property says nothing: only 'the filtered compile fails with the same error or succeeds' is recorded",
+                     "the Lean compile model covers config/status inheritance, if-feature, name clashes, the choice-default check and the filter; types, must/when, groupings are outside it (the harness comparison still sees every attribute)"],
+        "rule": "random module bodies (containers, single-key lists, leaves, leaf-lists, choices with 1-3 cases nested to depth 2-4) with config false / explicit config true / status statements placed at random (including placements the compiler must reject), "
+                "compiled without a filter and with each of ten filters (config, state, Exclude(state), Exclude(config), Include(config, IncludeState(true/false)), IsConfigOrState, IsOpd, Exclude(IsOpd), Include()); compared: for every filter, "
+                "dump(filtered compile) = prune(dump(unfiltered compile)) on the real code (all attributes), and the unfiltered dump (core attributes) and every error with the Lean compile model",
+    },
     "C04": {
         "streams": {"xsmall": {"quick": 1, "thorough": 1, "spec_proj": "accept"},
                     "xfuzz": {"quick": 30000, "thorough": 1000000, "spec_proj": "accept"}},
